@@ -20,6 +20,14 @@ def run(chk, tier):
         F = load(chk, cfg)
         E.eval_dyn_table(chk, F, 'R16.4', cfg)
         E.eval_table(chk, F, 'R16.4.eval', cfg)
+        # R16.8 'calls it makes back into mocked traits are evaluated by the same mock': whether a fall-through unmocks is decided by the
+        # state every clone shares (set by the constructors, never written; a clone shares exactly that state)
+        from props import lifecycle as L_
+        L_.clone_and_ctor(chk, F, 'R16.8', cfg)
+        acc_ = L_.field_accesses(F, 'state::SharedState', 'fallback_mode')
+        writers_ = L_.attributed(F, acc_, kinds=('write', 'construct'))
+        chk.ob('R16.8', 'fallback_mode lives in the shared state and is only written when that state is constructed', writers_ == ['state::SharedState::new'], config=cfg,
+               site='field:fallback_mode', what='writers of fallback_mode', found=writers_, expected=['state::SharedState::new'])
         # R16.6 'panics naming the call': the text the mock panics with is the rendering of this call's own error
         from props.c08 import panic_message_is_the_error
         panic_message_is_the_error(chk, F, 'R16.6', cfg)
